@@ -79,6 +79,11 @@ def approx_equal(a, b, rel=1e-9):
         if fx != fx and fy != fy:
             continue
         if abs(fx - fy) > rel * max(1.0, abs(fx), abs(fy)):
+            # a rendering the model flagged inexact may differ by one unit in the last printed place
+            dx = len(x.split(b".")[1]) if b"." in x else 0
+            dy = len(y.split(b".")[1]) if b"." in y else 0
+            if dx == dy and b"e" not in x and abs(fx - fy) <= 10 ** (-dx) * 1.0000001:
+                continue
             return False
     return True
 
